@@ -1043,6 +1043,8 @@ def features(src, tree=None):
                 f.add("fstring_escaped_brace_and_hash")
         if t.type == tokenize.STRING and prev is not None and prev.type == tokenize.FSTRING_END:
             f.add("fstring_then_plain_string")
+        if t.type == tokenize.FSTRING_START and prev is not None and prev.type == tokenize.STRING:
+            f.add("plain_string_then_fstring")
         if t.type in (tokenize.STRING, tokenize.FSTRING_MIDDLE) and "#" in t.string:
             hash_line = t.end[0]
         elif t.type == tokenize.OP and t.string == "(" and hash_line == t.start[0]:
@@ -1059,6 +1061,8 @@ def features(src, tree=None):
             f.add("starred")
         elif tn == "Tuple" and len(node.elts) == 1:
             f.add("tuple1")
+        elif tn == "Tuple" and len(node.elts) > 1 and (ast.get_source_segment(src, node) or "").rstrip().endswith(","):
+            f.add("bare_tuple_trailing_comma")  # a, b,  written without parentheses: the interpreter's extent includes the last comma
         elif tn in ("FunctionDef", "AsyncFunctionDef", "Lambda"):
             a = node.args
             if a.kwonlyargs:
